@@ -28,7 +28,7 @@ REQUIRED = ["C16:returns", "C16:cagr", "C16:volatility", "C16:drawdown", "C16:ma
             "C16:downside-volatility", "C16:upside-volatility", "C16:sharpe", "C16:sortino", "C16:calmar", "C16:martin",
             "C16:tracking-error", "C16:scale-pow2-bit-identical", "C16:scale-positive", "C16:cagr-structural",
             "C16:drawdown-structural", "C16:corruption-rejected", "C16:frame-columns", "C16:tearsheet"]
-REQUIRED_CATS = ["tied-returns", "plateau", "index:D", "index:B", "index:intraday", "index:irregular", "frame", "series"]
+REQUIRED_CATS = ["index:tz-intraday", "tied-returns", "plateau", "index:D", "index:B", "index:intraday", "index:irregular", "frame", "series"]
 TECHNIQUE = "runtime monitoring: pure-Python reference implementation of the textbook definitions compared on generated level series; corruption matrix enumerated"
 LEVEL_TEXT = ("Exploration against an independent pure-Python reference of every listed metric, with exact (power-of-two) and "
               "approximate scale-invariance twins and a fully enumerated single-defect corruption matrix.")
@@ -116,7 +116,12 @@ def bitsame(a, b):
 
 
 def make_index(r, n):
-    kind = r.choice(["D", "B", "intraday", "irregular"])
+    kind = r.choice(["D", "B", "intraday", "irregular", "tz-intraday"])
+    if kind == "tz-intraday":
+        # timezone-aware, two marks per LOCAL day that straddle UTC midnight (08:00 and 16:00 in Tokyo)
+        days = pd.date_range("2015-01-01", periods=(n + 1) // 2, freq="D")
+        stamps = sorted([d + pd.Timedelta(hours=8) for d in days] + [d + pd.Timedelta(hours=16) for d in days])[:n]
+        return kind, pd.DatetimeIndex(stamps).tz_localize(r.choice(["Asia/Tokyo", "Australia/Sydney", "America/Los_Angeles"]))
     if kind == "D":
         idx = pd.date_range("2015-01-01", periods=n, freq="D")
     elif kind == "B":
